@@ -52,6 +52,11 @@ var standinTable = map[string][]struct{ name, file, pkgdir, test, stands, boundQ
 		stands:        "json.Unmarshal(json.Marshal(index)) gives back exactly the same references (ResponseRef.UnmarshalJSON and encoding/json are outside the contracts; MarshalJSON is under contract)",
 		boundQuick:    "12 awkward strings (empty, ASCII, quotes/control bytes, valid and invalid UTF-8, text that looks like the escape marker) for ID x Vary x 4 shapes of the resolved map (nil, empty, one, two entries) x 3 timestamps (576 indexes of two references)",
 		boundThorough: "18 such strings x 18 x 4 shapes x 3 timestamps (1296 indexes of two references)",
+	}, {
+		name: "variant-id-distinguishes-resolved-values", file: "c09_varykey_test.go.txt", pkgdir: "internal", test: "TestGovcStandinC09VaryKey",
+		stands:        "makeVaryKey / makeVaryHash (hash/fnv, named but not specified by the contracts): two different maps of resolved selecting values get different response IDs unless the concatenation of their sorted names and values coincides (the one ambiguity the collision guard exists for); the ID does not depend on map iteration order and starts with the URL key",
+		boundQuick:    "every map over 4 field names (absent or one of 5 values incl. the empty one): 1296 maps",
+		boundThorough: "every map over 5 field names (absent or one of 7 values): 32768 maps",
 	}},
 	"C05": {{
 		name: "entry-round-trip", file: "c05_roundtrip_test.go.txt", pkgdir: "internal", test: "TestGovcStandinC05",
@@ -69,6 +74,11 @@ var standinTable = map[string][]struct{ name, file, pkgdir, test, stands, boundQ
 		stands:        "json.Unmarshal(json.Marshal(index)) gives back exactly the same references (ResponseRef.UnmarshalJSON and encoding/json are outside the contracts; MarshalJSON is under contract)",
 		boundQuick:    "12 awkward strings (empty, ASCII, quotes/control bytes, valid and invalid UTF-8, text that looks like the escape marker) for ID x Vary x 4 shapes of the resolved map (nil, empty, one, two entries) x 3 timestamps (576 indexes of two references)",
 		boundThorough: "18 such strings x 18 x 4 shapes x 3 timestamps (1296 indexes of two references)",
+	}, {
+		name: "variant-id-distinguishes-resolved-values", file: "c09_varykey_test.go.txt", pkgdir: "internal", test: "TestGovcStandinC09VaryKey",
+		stands:        "makeVaryKey / makeVaryHash (hash/fnv, named but not specified by the contracts): two different maps of resolved selecting values get different response IDs unless the concatenation of their sorted names and values coincides (the one ambiguity the collision guard exists for); the ID does not depend on map iteration order and starts with the URL key",
+		boundQuick:    "every map over 4 field names (absent or one of 5 values incl. the empty one): 1296 maps",
+		boundThorough: "every map over 5 field names (absent or one of 7 values): 32768 maps",
 	}},
 }
 
